@@ -136,6 +136,10 @@ func vfBoot(o vfBootOpts) *vfWorld {
 		panic("vfBoot outside vsched.Run")
 	}
 	vsnow.Reset()
+	if o.Image != nil || o.KeepData {
+		// ids generated after a restart must not collide with the ones already in the store
+		vsnow.ResetTo(1 << 20)
+	}
 	vfPush.drain()
 	if o.Image != nil {
 		vfDB.Reset()
